@@ -114,6 +114,81 @@ def bounded_classification_api(p):
   return S.result()
 
 
+def bounded_topk_classification(p):
+  """Top-k confusion-matrix metrics (k_list, also with gaps) vs the definition: predictions cut at k."""
+  S = Search(p, dict(k_lists='[1],[1,2],[1,3],[3],[2,4]', input='multiclass-multioutput rankings over 4 classes, multiclass', averages='micro|macro'))
+  vocab = {'a': 0, 'b': 1, 'c': 2, 'd': 3}
+  yt = [['a'], ['b', 'c'], ['a', 'd'], ['c'], ['d', 'a', 'b']]
+  yp = [['a', 'b', 'c'], ['c', 'a', 'b', 'd'], ['b', 'c', 'd', 'a'], ['d'], ['a', 'd', 'c']]
+  metrics = ['precision', 'recall', 'f1_score', 'binary_accuracy', 'false_discovery_rate']
+  for k_list in ([1], [1, 2], [1, 3], [3], [2, 4]):
+    for avg in ('micro', 'macro'):
+      got = expect(lambda: m_cls.ClassificationAggFn(metrics, input_type='multiclass-multioutput', average=avg, vocab=vocab, k_list=k_list)(yt, yp))
+      if got[0] != 'ok':
+        S.check(False, dict(k_list=k_list, average=avg), f'top-k classification raised {got}', cls='raise')
+        continue
+      for m in metrics:
+        exp = [mc.classification_expected(m, yt, [pr[:k] for pr in yp], 'multiclass-multioutput', avg, vocab=vocab) for k in k_list]
+        val = list(np.asarray(got[1][m], dtype=float).reshape(-1))
+        if not S.check(mc.close(val, exp, 1e-9), dict(k_list=k_list, average=avg, metric=m), f'{m}@{k_list} ({avg}): {val}, definition with predictions cut at k {exp}', cls=f'{m}-{avg}'):
+          return S.result()
+  # single-output multiclass: only the first prediction exists, every k >= 1 gives the same counts
+  yt1, yp1 = ['a', 'b', 'c', 'a'], ['a', 'c', 'c', 'b']
+  for k_list in ([1], [2], [1, 3]):
+    got = expect(lambda: m_cls.ClassificationAggFn(metrics, input_type='multiclass', average='micro', vocab=vocab, k_list=k_list)(yt1, yp1))
+    for m in metrics:
+      exp = [mc.classification_expected(m, yt1, yp1, 'multiclass', 'micro', vocab=vocab) for _ in k_list]
+      ok = got[0] == 'ok' and mc.close(list(np.asarray(got[1][m], dtype=float).reshape(-1)), exp, 1e-9)
+      if not S.check(ok, dict(k_list=k_list, input='multiclass', metric=m), f'{m}@{k_list} single-output: {got}, expected {exp}', cls=f'single-{m}'):
+        return S.result()
+  return S.result()
+
+
+def bounded_thresholded_retrieval(p):
+  """ThresholdedRetrieval precision/recall/f1 per threshold vs counting, incl. externally matched probabilities
+  with negative entries (documented: filtered out), several batches and a merge."""
+  S = Search(p, dict(thresholds='0, 0.5', batches='1-2, merged', sentinels='negative matched probabilities'))
+  th = (0.0, 0.5)
+  def counts(batches):
+    tp_t, tp_p, n_t, n_p = [0, 0], [0, 0], 0, [0, 0]
+    for mt, mp, pr in batches:
+      kt = [x for row in mt for x in row if x >= 0]
+      kp = [x for row in mp for x in row if x >= 0]
+      allp = [x for row in pr for x in row]
+      n_t += len(kt)
+      for i, t in enumerate(th):
+        tp_t[i] += sum(1 for x in kt if x > t)
+        tp_p[i] += sum(1 for x in kp if x > t)
+        n_p[i] += sum(1 for x in allp if x > t)
+    prec = [mc.sdiv(tp_p[i], n_p[i]) for i in range(2)]
+    rec = [mc.sdiv(tp_t[i], n_t) for i in range(2)]
+    f1 = [mc.sdiv(2 * a * b, a + b) for a, b in zip(prec, rec)]
+    return prec, rec, f1
+  b1 = ([[0.9, -1.0, 0.2]], [[0.9, 0.0, 0.2, -1.0]], [[0.9, 0.8, 0.2, 0.1]])
+  b2 = ([[0.7], [-1.0, 0.6]], [[0.7, 0.0], [0.6]], [[0.7, 0.3], [0.6]])
+  for batches in ([b1], [b2], [b1, b2]):
+    r = agg_ret.ThresholdedRetrieval(thresholds=th)
+    for mt, mp, pr in batches:
+      r.add(y_prob=pr, matched_true_prob=mt, matched_pred_prob=mp)
+    res = r.result()
+    exp = counts(batches)
+    got = [list(np.asarray(res[k], dtype=float)) for k in ('precision', 'recall', 'f1_score')]
+    if not S.check(mc.close(got, [list(x) for x in exp], 1e-6), dict(batches=len(batches), what='externally matched with negative sentinels'), f'ThresholdedRetrieval over {len(batches)} batch(es): {got}; counting gives {exp}', cls=f'matched-{len(batches)}'):
+      return S.result()
+  r1, r2 = agg_ret.ThresholdedRetrieval(thresholds=th), agg_ret.ThresholdedRetrieval(thresholds=th)
+  r1.add(y_prob=b1[2], matched_true_prob=b1[0], matched_pred_prob=b1[1]); r2.add(y_prob=b2[2], matched_true_prob=b2[0], matched_pred_prob=b2[1])
+  r1.merge(r2)
+  got = [list(np.asarray(r1.result()[k], dtype=float)) for k in ('precision', 'recall', 'f1_score')]
+  S.check(mc.close(got, [list(x) for x in counts([b1, b2])], 1e-6), dict(what='merged'), f'merged ThresholdedRetrieval {got}; counting gives {counts([b1, b2])}', cls='merged')
+  # through the built-in matcher
+  yt, yp, ypr = [['a', 'b'], ['c']], [['a', 'x', 'b'], ['y', 'c']], [[0.9, 0.8, 0.4], [0.7, 0.3]]
+  r = agg_ret.ThresholdedRetrieval(thresholds=th); r.add(yt, yp, ypr)
+  mt = [[0.9, 0.4], [0.3]]; mp = [[0.9, 0.0, 0.4], [0.0, 0.3]]
+  got = [list(np.asarray(r.result()[k], dtype=float)) for k in ('precision', 'recall', 'f1_score')]
+  S.check(mc.close(got, [list(x) for x in counts([(mt, mp, ypr)])], 1e-6), dict(what='built-in matcher'), f'with the built-in matcher {got}; counting gives {counts([(mt, mp, ypr)])}', cls='matcher')
+  return S.result()
+
+
 def _rankings(thorough):
   items = 'abcde'
   preds = [['a'], ['b', 'a'], ['c', 'd', 'a'], ['a', 'b', 'c', 'd', 'e'], ['e', 'd']]
